@@ -437,7 +437,8 @@ def gen_rc_cases(rng, count, big):
         kinds = [rng.choice(["gz", "bz2", "xz"]) for _ in sizes]
         if rng.chance(1, 2):
             kinds = [kinds[0]] * len(sizes)
-        comp = b"".join(gzip.compress(p) if k == "gz" else bz2.compress(p) if k == "bz2" else lzma.compress(p, format=lzma.FORMAT_XZ) for p, k in zip(plains, kinds))
+        comps = [gzip.compress(p) if k == "gz" else bz2.compress(p) if k == "bz2" else lzma.compress(p, format=lzma.FORMAT_XZ) for p, k in zip(plains, kinds)]
+        comp = b"".join(comps)
         src = rng.choice("FR")
         chunks = [rng.choice([1, 2, 6, 100, 16383, 16384, 16385, rng.range(1, 40000)]) for _ in range(60)] if src == "R" and rng.chance(3, 4) else []
         reqs = [rng.choice([1, 2, 3, 100, 4096, 16384, 65536, rng.range(1, 70000)]) for _ in range(rng.range(1, 12))]
@@ -445,7 +446,8 @@ def gen_rc_cases(rng, count, big):
         h = 7
         for x in plain:
             h = (h * 257 + x + 1) % 2147483647
-        cases.append(("RC %s %s %s %s" % (src, hexs(comp), ",".join("%x" % c for c in chunks) or "-", ",".join("%x" % c for c in reqs)),
+        cases.append(("RC %s %s %s %s %s %s" % (src, hexs(comp), ",".join("%x" % c for c in chunks) or "-", ",".join("%x" % c for c in reqs),
+                                                ",".join(p.hex() or "-" for p in plains), ",".join("%x" % len(c) for c in comps)),
                       "%x %x 0" % (len(plain), h)))
     return cases
 
@@ -573,6 +575,11 @@ def run(ctx):
             if len(mt) != len(it) or not all(tokens_equal(x, y) for x, y in zip(mt, it)):
                 k = next((j for j, (x, y) in enumerate(zip(mt, it)) if not tokens_equal(x, y)), min(len(mt), len(it)))
                 mismatches.append((c, a, b, k))
+        rc_model = run_parallel(model, [c for c, _ in rc], env=MODEL_ENV, prefix=MODEL_PREFIX, jobs=12)
+        rc_mismatch = [(c, o, m) for (c, _), o, m in zip(rc, rc_out, rc_model) if o != m]
+        ctx.coverage["read_compressed_model_mismatches"] = len(rc_mismatch)
+        if rc_mismatch:
+            mismatches.append((rc_mismatch[0][0][:2000], rc_mismatch[0][1], rc_mismatch[0][2], 0))
         sout = run_parallel(model, fp_cases[:ctx.pick(120, 600)], env=dict(MODEL_ENV, C18_VARIANT="spec"), prefix=MODEL_PREFIX, jobs=12)
         spec_vs_oracle = 0
         for c, b in zip(fp_cases, sout):
